@@ -746,23 +746,25 @@ class Interp:
             # {"a": x, **rest}: a mapping whose explicit string keys are known; `rest` may add further keys.  A splat that comes
             # AFTER an explicit key could override it - unless it is this function's own **kwargs (a caller cannot pass a named
             # parameter of the function through **kwargs) or a closed dict that does not contain the key.
-            cur, raises = [(st, {}, False)], []
+            cur, raises = [(st, {}, False, True)], []
             for k, v in zip(node.keys, node.values):
                 nxt = []
-                for s, acc, open_ in cur:
+                for s, acc, open_, good in cur:
                     vals, r = self.eval(s, v)
                     raises += r
                     for s2, av in vals:
                         if k is not None:
-                            nxt.append((s2, {**acc, k.value: av}, open_))
+                            nxt.append((s2, {**acc, k.value: av}, open_, good))
                         elif av.kind == "dict" and not av.val[1]:
-                            nxt.append((s2, {**acc, **dslots(av)}, open_))
+                            nxt.append((s2, {**acc, **dslots(av)}, open_, good))
                         elif av.kind == "dict" and av.sym and av.sym.startswith("p:") and not dslots(av):
-                            nxt.append((s2, dict(acc), True))  # own **kwargs: adds keys, overrides none of the named ones
+                            nxt.append((s2, dict(acc), True, good))  # own **kwargs: adds keys, overrides none of the named ones
                         else:
-                            nxt.append((s2, {}, True))  # anything may have been overridden
+                            nxt.append((s2, {}, True, False))  # a mapping the interpreter knows nothing about
                 cur = nxt
-            return [(s, dict_av(acc, open_=open_)) for s, acc, open_ in cur], raises
+            if all(good for _, _, _, good in cur):
+                return [(s, dict_av(acc, open_=open_)) for s, acc, open_, _ in cur], raises
+            # otherwise: the generic treatment below (children evaluated, result composed by the rule - e.g. taint of the parts)
         if isinstance(node, ast.Dict) and all(isinstance(k, ast.Constant) for k in node.keys if k is not None) and None not in node.keys:
             cur, raises = [(st, {})], []
             for k, v in zip(node.keys, node.values):
